@@ -170,7 +170,7 @@ Definition holds_all (G : fenv) (rho : nat -> Z) (l : list stmt) : option bool :
   fold_right (fun s a => opt_and (holds G rho s) a) (Some true) l.
 
 (* the expansion of `e in [items]` that ExprInModel.build performs: Or of (e == x) / ((e >= lo) & (e <= hi)),
-   empty = true; built without context *)
+   empty = false; built without context *)
 Definition in_item (e : expr) (it : expr * option expr) : expr :=
   match it with
   | (x, None) => EBin Eq e x
@@ -178,6 +178,6 @@ Definition in_item (e : expr) (it : expr * option expr) : expr :=
   end.
 Definition e_in (e : expr) (items : list (expr * option expr)) : expr :=
   EReset (match items with
-          | [] => ELit 1 false 1
+          | [] => ELit 0 false 1          (* nothing to be a member of (repaired code) *)
           | it :: t => fold_left (fun acc x => EBin Or acc (in_item e x)) t (in_item e it)
           end).
